@@ -39,9 +39,12 @@ def _operand_type_check(
             other = NumberExpr.from_value(decimal.Decimal(other))
         elif isinstance(other, decimal.Decimal):
             other = NumberExpr.from_value(other)
-        if isinstance(other, NumberExpr):
-            return op(self, other)
-        return NotImplemented
+        elif isinstance(other, NumberExpr):
+            # Operands are never consumed: work on a copy of the right-hand side.
+            other = copy.deepcopy(other)
+        else:
+            return NotImplemented
+        return op(self, other)
     return wrapped_op
 
 
